@@ -1,3 +1,4 @@
+import Treepath.Proofs.Drive
 import Treepath.Proofs.EvalLemmas
 import Treepath.Proofs.NodeLemmas
 /- C13 — parent steps climb the document tree -/
@@ -59,6 +60,16 @@ node as its document parent -/
 theorem child_then_parent (n : MNode J) (nm : Name) (d : J) :
     evalStep .parent (.child n nm d) = ([.par n (.child n nm d)], none) := by
   simp [evalStep, Step.cls, singleOf, MNode.remParent]
+
+/-- the traverser's parent steps are the definition's: for paths with parent steps in any
+position (no raising predicates) the machine yields `eval steps root`, whose parent steps
+climb by `remParent` -/
+theorem machine_climbs (steps : Array (Step J)) (src : Src J) (hq : Quiet steps.toList) (hp : PredsClean steps)
+    (limit : Nat) (st' st'' : St J) (rs : List (MNode J)) (E evs : List (Ev J))
+    (hy : Yields J.view steps src limit freshIter rs E st')
+    (hstop : next J.view steps src limit st' = (st'', evs, .stop)) :
+    rs = eval steps.toList src.rootNode :=
+  exhausted_all steps src hq hp limit st' st'' rs E evs hy hstop
 
 example : (eval [.key "a", .key "b", .parent, .key "k", .parent, .parent]
     (.root (.obj [("a", .obj [("b", .arr [.int 1]), ("k", .obj [])]), ("x", .int 5)]))).map MNode.pathStr
